@@ -1035,6 +1035,26 @@ class C13(vlib.Driver):
                 ]
                 for pl, ops in scripts:
                     cases.append({"plans": pl, "ops": ops, "fam": "companion", "companion": comp})
+        # (L) KeyboardInterrupt raised by a sub-environment (code 6): forwarded like any other exception — every command
+        #     kind, every worker index, 1-3 workers, first and later command, alone and next to an ordinary failure
+        KI = 6
+        for n in (1, 2, 3):
+            for w in range(n):
+                for at in (0, 1):
+                    for ki, kind in enumerate(("reset", "step", "call", "setattr", "sync")):
+                        plans = [[["normal"]] * at for _ in range(n)]
+                        plans[w] = plans[w] + [["raise", KI]]
+                        if n == 3 and at == 1:                     # several workers fail on the same command
+                            plans[(w + 1) % 3] = plans[(w + 1) % 3] + [["raise", 1 + ki % 3]]
+                        ops = [["sync", "reset"]] * at
+                        if kind == "setattr":
+                            ops = ops + [["setattr"]]
+                        elif kind == "sync":
+                            ops = ops + [["sync", KINDS[(w + at) % 3]]]
+                        else:
+                            ops = ops + [["async", kind], ["wait", kind, bool((w + at) % 2)]]
+                        ops = [list(o) for o in ops] + [["async", "reset"], ["close", False, bool(at)]]
+                        cases.append({"plans": plans, "ops": ops, "fam": "keyboard-interrupt"})
         # (G) staggered readiness in pipe order (free-running, real delays): worker answers after d_i seconds; with the
         #     shared deadline a wait/close with timeout T gives up at T as soon as max d_i > T, however the others are staggered
         T = STAG_T
@@ -1056,8 +1076,9 @@ class C13(vlib.Driver):
                           "mode": "free", "stag": ds})
         for c in cases:
             c["ops"] = self.prune(c["ops"])
-        first = [c for c in cases if c.get("fam") in ("kill-pending", "staggered", "free")]
-        cases = first + [c for c in cases if c.get("fam") not in ("kill-pending", "staggered", "free")]
+        early = ("kill-pending", "staggered", "free", "keyboard-interrupt")
+        first = [c for c in cases if c.get("fam") in early]
+        cases = first + [c for c in cases if c.get("fam") not in early]
         self.prefetch(list(self.corpus()) + cases, tier)
         return cases
 
@@ -1087,7 +1108,7 @@ class C13(vlib.Driver):
             return
         keys = list(todo)
         sb = Sandbox(BUDGET.get(tier, BUDGET["quick"]))
-        obs, survivors = sb.run([todo[k] for k in keys], max(1, min(int(os.environ.get("C13_JOBS", "3")), len(keys))))
+        obs, survivors = sb.run([todo[k] for k in keys], max(1, min(int(os.environ.get("C13_JOBS", "2")), len(keys))))
         for k, o in zip(keys, obs):
             self.cache[k] = o if o is not None else {"trace": [], "hung": False, "orphans": [], "harness_error": "case lost by the sandbox"}
         # a Hang that rests on the wall clock alone (5 s guard / hard limit) may be machine load: such cases are run once more,
